@@ -4015,3 +4015,39 @@ LS_SPACE_SAMPLE_NAME = _ls_space_method("sample_name_from_sample_id", "src_space
 LS_SPACE_ALL = [LS_SPACE_INIT, LS_SPACE_N_TYPES, LS_SPACE_N_DOSES, LS_SPACE_DOSES_FOR, LS_SPACE_IDS_FROM_NAME, LS_SPACE_SAMPLE_ID,
                 LS_SPACE_SAMPLE_NAME]
 ALL += LS_SPACE_ALL
+# ---- the small functions (wave 6): the attribute getters of Screen (`return self._<attr>`) and ScreenBase.sample_space_size /
+# treatment_space_size on both kinds of receiver (data.py; vocabulary: Model/Views.v; generated file Generated/SrcScreenAttrs.v; proofs
+# Proofs/C14Source_ScreenAttrs.v, C14Source_SpaceSize.v).  A Screen object is `pyscreen` = (identity, contents) as in the C14 block;
+# its PRIVATE attributes are read-only typed fields: the array / mapping the model screen holds in that place.  The getters'
+# theorems say that each property returns exactly the value the C14 block's _SCREEN_ATTRS primitives gave `s.<attr>`.
+_NO_STORE = "a_getter_of_Screen_never_stores {obj} {val}"          # not a Gallina term: a store to a private attribute is refused by Coq
+_LS_SCREEN_PRIVATE = {
+    "_plate_ids": ("pyscreen", "list Z", "s_pids (snd {obj})", _NO_STORE),
+    "_sample_ids": ("pyscreen", "list Z", "s_sids (snd {obj})", _NO_STORE),
+    "_treatment_ids": ("pyscreen", "list (list Z)", "s_tids (snd {obj})", _NO_STORE),
+    "_sample_names": ("pyscreen", "list name", "map r_sample (s_rows (snd {obj}))", _NO_STORE),
+    "_treatment_names": ("pyscreen", "(arr2 name)", "screen_treatment_names (snd {obj})", _NO_STORE),
+    "_treatment_doses": ("pyscreen", "(arr2 Z)", "screen_treatment_doses (snd {obj})", _NO_STORE),
+    "_observations": ("pyscreen", "list Z", "map r_obs (s_rows (snd {obj}))", _NO_STORE),
+    "_observation_mask": ("pyscreen", "list bool", "screen_mask (snd {obj})", _NO_STORE),
+    "_treatment_mapping": ("pyscreen", "tmapping", "s_tmap (snd {obj})", _NO_STORE),
+    "_sample_mapping": ("pyscreen", "nmapping", "s_smap (snd {obj})", _NO_STORE),
+    "_plate_mapping": ("pyscreen", "nmapping", "s_pmap (snd {obj})", _NO_STORE)}
+_LS_SCREEN = dict(file="src/batchie/data.py", out="SrcScreenAttrs.v", imports="Model.Encode Model.Screen Model.Views Generated.SrcViews",
+                  overload=True, pyparams=["self"], vars={})
+LS_SCREEN_GETTERS = [
+    dict(_LS_SCREEN, cls="Screen", func=f, name="src_screen_" + f, params=[("self", "pyscreen")], returns=t, fields=_LS_SCREEN_PRIVATE)
+    for f, t in [("plate_ids", "list Z"), ("sample_ids", "list Z"), ("treatment_ids", "list (list Z)"), ("sample_names", "list name"),
+                 ("treatment_names", "(arr2 name)"), ("treatment_doses", "(arr2 Z)"), ("observations", "list Z"),
+                 ("observation_mask", "list bool"), ("treatment_mapping", "tmapping"), ("sample_mapping", "nmapping"),
+                 ("plate_mapping", "nmapping")]]
+# len(self.<x>_mapping[0]): the mapping property runs its translation; m[0] = the names column of the mapping's rows
+_LS_MAP_COLS = [("__m[0]", "map fst {m}", "list name", {"m": "nmapping"}),
+                ("__m[0]", "map (fun e__ => fst (fst e__)) {m}", "list name", {"m": "tmapping"}),
+                ("len(__l)", "Z.of_nat (length {l})", "Z", {"l": "list name"})]
+LS_SPACE_SIZES = [
+    dict(_LS_SCREEN, cls="ScreenBase", func=f, name="src_%s_%s" % (kind, f), params=[("self", ty)], returns="Z",
+         prims=[("self.%s" % attr, "!src_%s_%s self'" % (kind, attr), mt)] + _LS_MAP_COLS)
+    for kind, ty in [("screen", "pyscreen"), ("view", "view")]
+    for f, attr, mt in [("sample_space_size", "sample_mapping", "nmapping"), ("treatment_space_size", "treatment_mapping", "tmapping")]]
+ALL += LS_SCREEN_GETTERS + LS_SPACE_SIZES
